@@ -452,6 +452,8 @@ class Interp:
         if r is None:
             return TOP
         d, l, path = r
+        if getattr(self, "read_log", None) is not None and pl[1]:
+            self.log_index(self.read_log, st, depth, pl, path)
         return self.read_path(st.frames[d].get(l, TOP), path)
 
     def focus_key(self, fv, pl):
@@ -464,11 +466,24 @@ class Interp:
             return (pl[0], "*", cs(pr[1][1]))
         return None
 
+    def log_index(self, log, st, depth, pl, path):
+        """may-access log: (function key, base local) -> list of (lo, hi) index intervals of element accesses"""
+        if depth != len(st.frames) - 1 or not getattr(self, "fn_stack", None):
+            return
+        for stp in path:
+            if stp[0] == "i":
+                k = stp[1]
+                lo, hi = (k, k) if isinstance(k, int) else k
+                log.setdefault((self.fn_stack[-1]["key"], pl[0]), []).append((lo, hi))
+                return
+
     def write_place(self, st, depth, pl, val):
         r = self.resolve_place(st, depth, pl)
         if r is None:
             return
         d, l, path = r
+        if getattr(self, "store_log", None) is not None and pl[1]:
+            self.log_index(self.store_log, st, depth, pl, path)
         cur = st.frames[d].get(l)
         if path and (cur is None or cur[0] == "top"):
             fv = None
@@ -2100,11 +2115,17 @@ class Interp:
                     if newv is not None:
                         cur = st.frames[r[1]].get(r[2], TOP)
                         st.frames[r[1]][r[2]] = self.write_path(cur, r[3], newv)
+                for rx, hook in getattr(self, "ret_hooks", ()):
+                    if rx.search(g["path"]) and ret is not None:
+                        hook(self, g, args, st, ret)
                 return ret
         before = [self.read_path(st.frames[r[1]].get(r[2], TOP), r[3]) for r in refs]
         ret = self.call_fn(g, args, st, depth, tyenv)
         if tr and re.search(tr, g["path"]):
             print("TRACE ret ", g["path"][-60:], show_val(ret, 3)[:200] if ret is not None else None, "| args after:", [show_val(self.deref_val(st, a), 3)[:200] for a in args])
+        for rx, hook in getattr(self, "ret_hooks", ()):
+            if rx.search(g["path"]) and ret is not None:
+                hook(self, g, args, st, ret)
         for rx, bound, name in getattr(self, "assumed_post", ()):
             if rx.search(g["path"]) and ret is not None:
                 ret = meet(ret, bound(self, st, args) if callable(bound) else bound)
